@@ -2,7 +2,7 @@
    hypotheses of the theorems in Props/, evaluated by vm_compute. *)
 From Coq Require Import ZArith List Bool String Lia.
 Require Import QzSched.Gen.Params QzSched.SchedModel QzSched.Registry QzSched.ListQueue QzSched.Triggers
-               QzSched.LtsDefs QzSched.ApiProofs QzSched.ListQueueProofs QzSched.C08Proofs QzSched.C04Proofs QzSched.ExamplesC09.
+               QzSched.LtsDefs QzSched.ApiProofs QzSched.ListQueueProofs QzSched.C08Proofs QzSched.C04Proofs QzSched.ExampleDefs.
 Import ListNotations.
 Open Scope string_scope.
 Open Scope Z_scope.
